@@ -54,7 +54,8 @@
 (*        statement does not oblige the server to serve in that case)      *)
 (*  Seeded faults (mirror the harness mutants, each violates one invariant):*)
 (*   "servers_before_startup" "shutdown_before_drain" "skip_terminated"    *)
-(*   "mark_request_ge"                                                     *)
+(*   "mark_request_ge" "shutdown_waits_startup_timeout" (the wait for     *)
+(*   lifespan.shutdown.complete bounded by the other timeout)              *)
 (***************************************************************************)
 EXTENDS Naturals, Integers, FiniteSets, TLC
 
@@ -261,7 +262,8 @@ SendShutdown ==     \* Lifespan.wait_for_shutdown, first half
        THEN /\ pc' = "finish" /\ UNCHANGED <<shutdownQ, shutSent, shutDl, raised, returned, listening>>
        ELSE IF chanClosed
        THEN /\ Abort /\ UNCHANGED <<shutdownQ, shutSent, shutDl>>
-       ELSE /\ shutdownQ' = TRUE /\ shutSent' = shutSent + 1 /\ shutDl' = now + ShutTO
+       ELSE /\ shutdownQ' = TRUE /\ shutSent' = shutSent + 1
+            /\ shutDl' = now + (IF D("shutdown_waits_startup_timeout") THEN StartTO ELSE ShutTO)
             /\ pc' = "wait_shutdown" /\ UNCHANGED <<raised, returned, listening>>
     /\ UNCHANGED <<worker, lifeVars, startupQ, timedOut, connVars, maxReqCfg, maxReq, terminated, trigAt,
                    now, startDl, graceEnd, cancelAt>>
